@@ -1,7 +1,203 @@
-//! C16 - placeholder, replaced below.
-use crate::model::Analysis;
-use crate::oracle::{Aux, Tally, Violation};
+//! C16 - ONC-RPC / portmapper: replies correlated, framed, advertise the contacted endpoint.
 
-pub fn check(_a: &Analysis, _aux: &mut Aux, _t: &mut Tally) -> Vec<Violation> {
-    Vec::new()
+use std::net::IpAddr;
+
+use crate::apps::rpc::{self, CallClass, Expected};
+use crate::apps::sig::{self, Decision};
+use crate::model::Analysis;
+use crate::oracle::{Aux, Tally, Verdict, Violation};
+
+struct Case<'a> {
+    /// call message without record mark
+    call: &'a [u8],
+    /// whole payload as the matcher sees it (with record mark over TCP)
+    wire: &'a [u8],
+    reply: Option<&'a [u8]>,
+    tcp: bool,
+    dst: IpAddr,
+    dport: u16,
+    carrier: String,
+    idx: usize,
+}
+
+fn judge(c: &Case, sigs: &[sig::Sig], t: &mut Tally, v: &mut Vec<Violation>) {
+    let (class, call) = rpc::parse_call(c.call);
+    let call = match (class, call) {
+        (CallClass::Ok, Some(call)) => call,
+        (CallClass::DontCare(w), _) => {
+            if c.call.len() >= 16 && c.call[4..8] == [0, 0, 0, 0] && c.call[12..15] == [0, 1, 0x86] {
+                t.any(w);
+            }
+            return;
+        }
+        _ => return,
+    };
+    if call.msg_type != 0 || !rpc::in_portmap_range(call.prog) || call.proc_ > 255 || call.rpcvers > 255 {
+        return; // not what the signature describes
+    }
+    if call.rpcvers != 2 {
+        t.any("rpc-version-other-than-2");
+        return;
+    }
+    let want_sig = if c.tcp { "RPC:TCP" } else { "RPC:UDP" };
+    let d = sig::decide(sigs, c.wire, !c.tcp);
+    let mut bad = |rule: &str, key: String, detail: String| {
+        v.push(Violation {
+            prop: "C16",
+            rule: rule.into(),
+            key,
+            step: c.idx,
+            detail,
+        });
+    };
+    match &d {
+        Decision::Match { sig, .. } if sigs[*sig].name == want_sig => {}
+        Decision::Match { .. } | Decision::Ambiguous => {
+            t.any("leading-bytes-complete-another-signature");
+            return;
+        }
+        _ => return,
+    }
+    let exp = rpc::expected_reply(&call, &c.dst, c.dport);
+    let kind = if call.vers < 2 || call.vers > 4 {
+        "prog-mismatch".to_string()
+    } else if call.proc_ == 0 {
+        "null".to_string()
+    } else if call.prog != 100000 {
+        "prog-unavail".to_string()
+    } else {
+        match call.proc_ {
+            3 => format!("getport-v{}", call.vers),
+            4 => format!("dump-v{}", call.vers),
+            _ => "proc-unavail".to_string(),
+        }
+    };
+    t.judged(
+        Verdict::Reply,
+        format!(
+            "{}|{}|cred{}|verf{}",
+            c.carrier,
+            kind,
+            if call.cred.is_empty() { "0" } else if call.cred.len() % 4 == 0 { "4n" } else { "odd" },
+            if call.verf.is_empty() { "0" } else { "n" }
+        ),
+    );
+    let r = match c.reply {
+        Some(r) if !r.is_empty() => r,
+        _ => {
+            // explain by wildcard shadowing if possible (known-finding classes)
+            let sidx = sigs.iter().position(|s| s.name == want_sig).unwrap();
+            let why = match sig::shadow_explanation(sigs, sidx, c.wire) {
+                Some((pos, _byte, other)) => format!("shadowed@{}<-{}", pos, other.split(':').next().unwrap_or(other)),
+                None => "unexplained".to_string(),
+            };
+            bad(
+                "unanswered",
+                format!("unanswered:{}:{}", want_sig, why),
+                format!("{} call (prog {}, vers {}, proc {}) over {} was not answered [{}]", kind, call.prog, call.vers, call.proc_, c.carrier, why),
+            );
+            return;
+        }
+    };
+    // framing over TCP
+    let body: &[u8] = if c.tcp {
+        if r.len() < 4 {
+            bad("record-mark", "record-mark".into(), "reply shorter than a record mark".into());
+            return;
+        }
+        let rm = u32::from_be_bytes([r[0], r[1], r[2], r[3]]);
+        if rm & 0x8000_0000 == 0 {
+            bad("record-mark", "record-mark-last-fragment".into(), "record mark without the last-fragment bit".into());
+        }
+        if (rm & 0x7fff_ffff) as usize != r.len() - 4 {
+            bad("record-mark", "record-mark-length".into(), format!("record mark announces {} bytes, {} follow", rm & 0x7fff_ffff, r.len() - 4));
+        }
+        &r[4..]
+    } else {
+        r
+    };
+    if body.len() % 4 != 0 {
+        bad("xdr-alignment", "xdr-alignment".into(), format!("reply body of {} bytes is not 4-byte aligned", body.len()));
+    }
+    let rp = match rpc::parse_reply(body) {
+        Some(rp) => rp,
+        None => {
+            bad("reply-header", "reply-header".into(), format!("reply of {} bytes is shorter than an accepted-reply header", body.len()));
+            return;
+        }
+    };
+    if rp.xid != call.xid {
+        bad("xid", "xid".into(), format!("reply xid {:#x}, call xid {:#x}", rp.xid, call.xid));
+    }
+    if rp.msg_type != 1 || rp.reply_stat != 0 {
+        bad("reply-header", "not-accepted-reply".into(), format!("msg_type {} reply_stat {}", rp.msg_type, rp.reply_stat));
+    }
+    if rp.verf_flavor != 0 || rp.verf_len != 0 {
+        bad("verifier", "verifier".into(), format!("verifier flavor {} length {}", rp.verf_flavor, rp.verf_len));
+    }
+    match exp {
+        Expected::Exact(want) => {
+            if body != &want[..] {
+                let ws = u32::from_be_bytes([want[20], want[21], want[22], want[23]]);
+                bad(
+                    "reply-body",
+                    format!("reply-body:{}:stat{}", kind.split('-').next().unwrap_or(&kind), rp.accept_stat),
+                    format!("{} call: accept_stat {} body {} differs from the expected accept_stat {} body {}", kind, rp.accept_stat, crate::wire::hex(&body[24.min(body.len())..]), ws, crate::wire::hex(&want[24..])),
+                );
+            }
+        }
+        Expected::HeaderOnly(_) => {
+            if rp.accept_stat != 0 {
+                bad("dump-stat", "dump-stat".into(), format!("DUMP answered with accept_stat {}", rp.accept_stat));
+            } else if let Err(e) = rpc::check_dump(&body[24..], call.vers, &c.dst, c.dport) {
+                bad("dump-body", "dump-body".into(), e);
+            }
+        }
+    }
+}
+
+pub fn check(a: &Analysis, _aux: &mut Aux, t: &mut Tally) -> Vec<Violation> {
+    let mut v = Vec::new();
+    let sigs = sig::signatures();
+    for x in a.udp_exchanges() {
+        let c = Case {
+            call: x.payload,
+            wire: x.payload,
+            reply: x.reply,
+            tcp: false,
+            dst: x.dst,
+            dport: x.dport,
+            carrier: format!("udp{}", if x.v6 { 6 } else { 4 }),
+            idx: a.steps[x.si].idx,
+        };
+        judge(&c, &sigs, t, &mut v);
+    }
+    for st in a.tcp_streams() {
+        if st.dirty || st.segs.is_empty() {
+            continue;
+        }
+        let s0 = &st.segs[0];
+        let p0 = &st.stream[..s0.len];
+        if p0.len() < 32 {
+            continue;
+        }
+        let rm = u32::from_be_bytes([p0[0], p0[1], p0[2], p0[3]]);
+        if rm & 0x8000_0000 == 0 || (rm & 0x7fff_ffff) as usize != p0.len() - 4 {
+            // not a single record-marked message in one segment: C11's domain
+            continue;
+        }
+        let v6 = matches!(st.flow.src, IpAddr::V6(_));
+        let c = Case {
+            call: &p0[4..],
+            wire: p0,
+            reply: s0.reply_app.as_deref(),
+            tcp: true,
+            dst: st.flow.dst,
+            dport: st.flow.dport,
+            carrier: format!("tcp{}", if v6 { 6 } else { 4 }),
+            idx: a.steps[s0.si].idx,
+        };
+        judge(&c, &sigs, t, &mut v);
+    }
+    v
 }
